@@ -5,6 +5,10 @@ ID="$1"; WT="${2:-/tmp/seed/$ID}"
 export CARGO_TARGET_DIR=/tmp/seed/target CARGO_NET_OFFLINE=true
 cd "$WT" || exit 2
 git checkout -q -- . ; git clean -fdq crates; rm -f tests/seed_demo.rs
+# the target directory is shared between worktrees and cargo judges freshness by mtime relative to
+# the package root: without this, unit-test binaries of crates this change does not touch could be
+# leftovers built from another worktree's (changed) sources
+find crates src tests -name '*.rs' -exec touch {} + 2>/dev/null
 git apply --check seed/patch.diff || { echo "$ID: patch does not apply"; exit 1; }
 git apply seed/patch.diff
 suite=$(cargo nextest run --workspace --no-fail-fast --tool-config-file pb:/w/lib/nextest.toml --profile pb --test-threads 8 --offline 2>&1 | grep -E "Summary|error(\[|:)" | head -3)
